@@ -75,3 +75,12 @@ claim("C20", "TLC model checking of the Sobol state machine on the exported dire
       "single/batch/front-end calls on windows [s, s+k] (s <= 10^6, k <= 256, up to 1000 dims) are validated one TLC step per point: Sobol values must equal the spec's "
       "integers exactly, all values in [0,1), and an observation register demands the same value for the same (method, seed, dim) by every route and order.",
       "Korobov values have no exact oracle (range, determinism and route agreement to 2^-60 only); compiled kernels used as found.")
+
+claim("C13", "TLC trace validation of P1/supercell/trigonal re-expressions + model checking of the trigonal basis change",
+      "Reexpress.tla states the two trigonal basis changes exactly (integer matrices, Gram congruence) and what 'same arrangement' means. MC_Reexpress checks for "
+      "the seven R-lattice groups (operation lists of both settings exported from the tree) and the listed sites of the N=12 grid (all 1728 in thorough) that the "
+      "hexagonal and rhombohedral descriptions coincide atom by atom modulo the lattice with counts 3:1, and that H->R->H and R->H->R restore the state. Real crystals "
+      "(molecular and atomic, all settings in thorough, cells from parameters / lattice vectors / arbitrarily rotated lattice vectors) go through as_P1, as_P1_supercell, "
+      "to_translational_symmetry (sizes to 3x3x3) and choose_trigonal_lattice from either setting and back; TLC checks P1-ness, the supercell Gram matrix, the exact atom "
+      "set modulo the supercell, atom and volume ratios, density, the switched state against SwitchTrigonal, and the round trip.",
+      "Cells are seen through their integer Gram matrix; coordinates projected to the grid (residual > 1e-6 rejected); density to 1e-6 relative; fresh objects only (staleness is C14).")
